@@ -21,6 +21,17 @@ model only (it imports no generated code) and proves, for every branching functi
   out is listed as *untraced paths* (formally as a list `…Untraced` where that is cheap, in the doc
   comment otherwise).  Untraced paths are tied to the model by the differential layer only.
 
+STATUS: this file describes the FIRST wave of traced paths.  Where a theorem below is marked "NOT exhaustive" / "untraced", that is
+a statement about the path list of this file; most remainders were traced later and the updated lists are in
+`Cgm/Trace/Cover2.lean` (C13 `normalize`, `Deg::opposite`, C11 `angle` of `Vector4` / `Quaternion`, `between_vectors`, ...),
+`Cgm/Trace/Cover3.lean` (all of C13: `normalize_signed`, `opposite`, `bisect` for both units, kernels of
+`Cgm/Trace/C13More.lean`: exhaustive in an ordered field) and `Cgm/Trace/Cover4.lean` (`perspective` every entry point, `from_arc`,
+`Quaternion::look_at`, `Decomposed` `look_at` / `inverse_transform_vector` of the `Basis` rotations: exhaustive; `planar`: exact
+remainder; kernels of `Cgm/Trace/C08More.lean`, `C09More.lean`, `C10More.lean`, `C15More.lean`).  Each such docstring names the
+later theorem.  Still as described here: the `None` / `Some` halves of the matrix `inverse_transform{,_vector}` entry points,
+`Decomposed<_, Quaternion>::inverse_transform_vector` and `look_at_{lh,rh}`, the 2-D `look_at_{lh,rh}` of `Matrix3` (the deprecated 2-D `look_at` entry point has both paths:
+`t_m3_tlook_at2_flip` / `_noflip`, `Cgm/Trace/C09Rest.lean`).
+
 Unless said otherwise everything holds in a `Field` with an arbitrary `LinearOrder` (the class
 context of the `Trace` files: no compatibility between order and arithmetic is used); where the
 compatibility matters (`IsStrictOrderedRing`) it is an explicit instance argument.
@@ -283,7 +294,7 @@ theorem deg_normalize_cover (a : K) : AnyOf (degNormalizePaths a) ↔ True := by
   simp only [degNormalizePaths, AnyOf, Excl]; grind
 theorem rad_normalize_excl (a : K) : Excl (radNormalizePaths a) := by
   simp only [radNormalizePaths, AnyOf, Excl]; grind
-/-- NOT exhaustive: covered exactly the angles whose remainder is not zero -/
+/-- NOT exhaustive (this file's path list; the remainder was traced later: exhaustive in `Cover2.rad_normalize_cover`): covered exactly the angles whose remainder is not zero -/
 theorem rad_normalize_cover (a : K) : AnyOf (radNormalizePaths a) ↔ FRem.frem a (Lits.radFull : K) ≠ 0 := by
   simp only [radNormalizePaths, AnyOf, Excl]; grind
 theorem rad_normalize_complement (a : K) : AnyOf (radNormalizePaths a) ↔ ¬ AnyOf (radNormalizeUntraced a) := by
@@ -304,7 +315,7 @@ def degNormalizeSignedUntraced (a : K) : List Prop :=
     FRem.frem a (360 : K) < 0 ∧ (360 : K) / 2 = FRem.frem a 360 + 360 ]
 theorem deg_normalize_signed_excl (a : K) : Excl (degNormalizeSignedPaths a) := by
   simp only [degNormalizeSignedPaths, AnyOf, Excl]; grind
-/-- NOT exhaustive: covered exactly: remainder non-zero and the normalised angle is not the half turn -/
+/-- NOT exhaustive (this file's path list; the remainder was traced later: exhaustive in `Cover3.deg_normalize_signed_cover_ordered`): covered exactly: remainder non-zero and the normalised angle is not the half turn -/
 theorem deg_normalize_signed_cover (a : K) :
     AnyOf (degNormalizeSignedPaths a) ↔
       ((0 < FRem.frem a (360 : K) ∧ FRem.frem a 360 ≠ (360 : K) / 2) ∨
@@ -333,7 +344,7 @@ def radNormalizeSignedUntraced (a : K) : List Prop :=
     0 < FRem.frem a (Lits.radFull : K) ∧ (Lits.radFull : K) / 2 = FRem.frem a Lits.radFull ]
 theorem rad_normalize_signed_excl (a : K) : Excl (radNormalizeSignedPaths a) := by
   simp only [radNormalizeSignedPaths, AnyOf, Excl]; grind
-/-- NOT exhaustive: covered exactly: positive remainder different from the half turn -/
+/-- NOT exhaustive (this file's path list; the remainder was traced later: exhaustive in `Cover3.rad_normalize_signed_cover_ordered`): covered exactly: positive remainder different from the half turn -/
 theorem rad_normalize_signed_cover (a : K) :
     AnyOf (radNormalizeSignedPaths a) ↔
       (0 < FRem.frem a (Lits.radFull : K) ∧ FRem.frem a Lits.radFull ≠ (Lits.radFull : K) / 2) := by
@@ -351,13 +362,13 @@ def radOppositePaths (a : K) : List Prop :=
   [ 0 < FRem.frem (a + Lits.radFull / 2) (Lits.radFull : K) ]
 theorem deg_opposite_excl (a : K) : Excl (degOppositePaths a) := by
   simp only [degOppositePaths, AnyOf, Excl]; grind
-/-- NOT exhaustive: untraced: the remainder of `a + 180` is zero -/
+/-- NOT exhaustive (this file's path list; the remainder was traced later: exhaustive in `Cover2.deg_opposite_cover`): untraced: the remainder of `a + 180` is zero -/
 theorem deg_opposite_cover (a : K) :
     AnyOf (degOppositePaths a) ↔ FRem.frem (a + 360 / 2) (360 : K) ≠ 0 := by
   simp only [degOppositePaths, AnyOf, Excl]; grind
 theorem rad_opposite_excl (a : K) : Excl (radOppositePaths a) := by
   simp only [radOppositePaths, AnyOf, Excl]; tauto
-/-- NOT exhaustive: untraced: the remainder of `a + π` is negative, or zero -/
+/-- NOT exhaustive (this file's path list; the remainder was traced later: exhaustive in `Cover3.rad_opposite_cover`): untraced: the remainder of `a + π` is negative, or zero -/
 theorem rad_opposite_cover (a : K) :
     AnyOf (radOppositePaths a) ↔ 0 < FRem.frem (a + Lits.radFull / 2) (Lits.radFull : K) := by
   simp only [radOppositePaths, AnyOf, Excl]; tauto
@@ -374,10 +385,12 @@ def bisectSigned (a b : K) : K :=
   if (360 : K) / 2 < FRem.frem (b - a) 360 then FRem.frem (b - a) 360 - 360 else FRem.frem (b - a) 360
 theorem deg_bisect_excl (a b : K) : Excl (degBisectPaths a b) := by
   simp only [degBisectPaths, AnyOf, Excl]; grind
-/-- NOT exhaustive: covered exactly: the remainder of the difference is positive and not the half
+/-- NOT exhaustive (this file's path list): covered exactly: the remainder of the difference is positive and not the half
 turn, and the remainder of the bisector before the last `normalize` is positive.
-Untraced: remainder of `b - a` negative or zero (all continuations); equal to 180; outer remainder
-negative or zero.  `Rad::bisect` is not traced at all. -/
+Not in this list: remainder of `b - a` negative or zero (all continuations); equal to 180; outer remainder
+negative or zero; all of `Rad::bisect`.  These were traced later: `Rad::bisect` near / wrap in `Cgm/Trace/C13Paths.lean`
+(`Cover2.rad_bisect_cover`), every remaining path of both units in `Cgm/Trace/C13More.lean`; the twenty-one paths are
+exhaustive in `Cover3.deg_bisect_cover_ordered` / `Cover3.rad_bisect_cover_ordered`. -/
 theorem deg_bisect_cover (a b : K) :
     AnyOf (degBisectPaths a b) ↔
       (0 < FRem.frem (b - a) (360 : K) ∧ FRem.frem (b - a) 360 ≠ (360 : K) / 2 ∧
@@ -492,7 +505,7 @@ def perspectivePaths (fovy a n f : K) : List Prop :=
     0 < fovy ∧ fovy < Lits.radFull / 2 ∧ ¬ a < 0 ∧ absDiffEqD a (0 : K) = false ∧ ¬ 0 < n ]
 theorem perspective_excl (fovy a n f : K) : Excl (perspectivePaths fovy a n f) := by
   simp only [perspectivePaths, AnyOf, Excl]; grind
-/-- NOT exhaustive.  Covered exactly: negative `fovy` (panic); or `0 < fovy < π`, aspect not negative
+/-- NOT exhaustive (this file's path list; the remainder was traced later: exhaustive in `Cover4.perspective_cover`).  Covered exactly: negative `fovy` (panic); or `0 < fovy < π`, aspect not negative
 and not ≈ 0, and either `near` not positive (panic) or `far` positive and not ≈ `near` (ok).
 Untraced: `fovy = 0` (panic, outcome `Equal`); `fovy ≥ π` (panic, outcomes `Equal`/`Greater`);
 negative aspect (all continuations, including the successful one); aspect ≈ 0 (panic);
@@ -512,7 +525,7 @@ def planarPaths (fovy a h n f : K) : List Prop :=
       ¬ ((¬ Rad.tan (fovy / (two : K)) < 0 ∧ ¬ 0 < Rad.tan (fovy / (two : K))) ∧ ¬ 0 < h) ]
 theorem planar_excl (fovy a h n f : K) : Excl (planarPaths fovy a h n f) := by
   simp only [planarPaths, AnyOf, Excl]; tauto
-/-- NOT exhaustive: the successful path of `Trace/C10.lean` only (the failing `assert!`s, the negative aspect, `far < near` and
+/-- NOT exhaustive (this file's path list; the remainder was traced later: `Cover2.planar_cover`, then `Cover4.planar_cover` / `Cover4.planar_cover_regular`): the successful path of `Trace/C10.lean` only (the failing `assert!`s, the negative aspect, `far < near` and
 the focal point beyond the farther plane are traced in `Trace/C10Paths.lean`, added later and not listed here).  The last
 conjunct excludes `tan(fovy/2) = 0 ∧ height = 0`, where the code's `inv_f` is `0/0` and exact and IEEE arithmetic differ. -/
 theorem planar_cover (fovy a h n f : K) :
@@ -544,7 +557,7 @@ theorem v4_angle_excl (a b : V4 K) : Excl (v4AnglePaths a b) := by
   simp only [v4AnglePaths, clampUnclamped, clampHigh, AnyOf, Excl]; tauto
 theorem v4_angle_complement (a b : V4 K) : AnyOf (v4AnglePaths a b) ↔ ¬ AnyOf (v4AngleUntraced a b) := by
   simp only [v4AnglePaths, v4AngleUntraced, clampUnclamped, clampHigh, clampLow, AnyOf, Excl]; tauto
-/-- NOT exhaustive: untraced: the cosine is clamped from below.  In an arbitrary linear order: -/
+/-- NOT exhaustive (this file's path list; the remainder was traced later: exhaustive in `Cover2.v4_angle_cover`): untraced: the cosine is clamped from below.  In an arbitrary linear order: -/
 theorem v4_angle_cover (a b : V4 K) :
     AnyOf (v4AnglePaths a b) ↔
       (1 < V4.dot a b / (a.magnitude * b.magnitude) ∨ -1 ≤ V4.dot a b / (a.magnitude * b.magnitude)) := by
@@ -569,7 +582,7 @@ theorem q_angle_excl (a b : Quat K) : Excl (qAnglePaths a b) := by
   simp only [qAnglePaths, AnyOf, Excl]; tauto
 theorem q_angle_complement (a b : Quat K) : AnyOf (qAnglePaths a b) ↔ ¬ AnyOf (qAngleUntraced a b) := by
   simp only [qAnglePaths, qAngleUntraced, clampUnclamped, clampHigh, clampLow, AnyOf, Excl]; tauto
-/-- NOT exhaustive: covered exactly the pairs whose cosine is in `[-1, 1]`; both clamped paths are untraced -/
+/-- NOT exhaustive (this file's path list; the remainder was traced later: exhaustive in `Cover2.q_angle_cover`): covered exactly the pairs whose cosine is in `[-1, 1]`; both clamped paths are untraced -/
 theorem q_angle_cover (a b : Quat K) :
     AnyOf (qAnglePaths a b) ↔
       (-1 ≤ Quat.dot a b / (a.magnitude * b.magnitude) ∧ Quat.dot a b / (a.magnitude * b.magnitude) ≤ 1) := by
@@ -666,7 +679,7 @@ theorem between_vectors_excl (a b : V3 K) : Excl (betweenVectorsPaths a b) := by
 theorem between_vectors_complement (a b : V3 K) :
     AnyOf (betweenVectorsPaths a b) ↔ ¬ AnyOf (betweenVectorsUntraced a b) := by
   simp only [betweenVectorsPaths, betweenVectorsUntraced, AnyOf, Excl]; grind
-/-- NOT exhaustive: covered exactly the pairs on which the model does not take its `opposite` branch -/
+/-- NOT exhaustive (this file's path list; the remainder was traced later: exhaustive in `Cover2.between_vectors_cover`): covered exactly the pairs on which the model does not take its `opposite` branch -/
 theorem between_vectors_cover (a b : V3 K) :
     AnyOf (betweenVectorsPaths a b) ↔ Quat.betweenVectorsBranch a b ≠ .opposite := by
   simp only [betweenVectorsPaths, AnyOf, Excl, Quat.betweenVectorsBranch]
@@ -686,7 +699,7 @@ theorem from_arc_excl (a b : V3 K) : Excl (fromArcPaths a b) := by
   simp only [fromArcPaths, AnyOf, Excl]; grind
 theorem from_arc_complement (a b : V3 K) : AnyOf (fromArcPaths a b) ↔ ¬ AnyOf (fromArcUntraced a b) := by
   simp only [fromArcPaths, fromArcUntraced, AnyOf, Excl]; grind
-/-- NOT exhaustive: covered exactly the pairs on which the model does not take its `opposite` branch -/
+/-- NOT exhaustive (this file's path list; the remainder was traced later: `Cover2.from_arc_cover`, exhaustive in `Cover4.from_arc_cover` given `ulps_eq!(0, 0)`): covered exactly the pairs on which the model does not take its `opposite` branch -/
 theorem from_arc_cover (a b : V3 K) :
     AnyOf (fromArcPaths a b) ↔ Quat.fromArcBranch a b ≠ .opposite := by
   simp only [fromArcPaths, AnyOf, Excl, Quat.fromArcBranch]
